@@ -143,9 +143,9 @@ Print Assumptions C18_copying_adapters_share_nothing.
    --------------------------------------------------------------------------------------- *)
 (* the type dispatch of restore / adapt (exact type, Individual, head of a sequence) coincides
    with the element-wise conversion on the documented argument shapes *)
-Theorem C18_restore_dispatch : forall (G M : Type) (cvR : G -> option M -> G) k (v : @val G M),
-  restorable k v = true -> restore cvR k v = Ok (restore_total cvR k v).
-Proof. intros G M cvR. exact (restore_total_ok cvR). Qed.
+Theorem C18_restore_dispatch : forall (G M : Type) (cvR : G -> option M -> G) (g_empty : G -> bool) k (v : @val G M),
+  restorable g_empty k v = true -> restore cvR g_empty k v = Ok (restore_total cvR k v).
+Proof. intros G M cvR g_empty. exact (restore_total_ok cvR g_empty). Qed.
 Print Assumptions C18_restore_dispatch.
 
 Theorem C18_adapt_dispatch : forall (G M : Type) (cvA : G -> G) k (v : @val G M),
@@ -184,7 +184,7 @@ Print Assumptions C18_conversion_shapes.
 (* the sequence branch applies to EVERY Sequence that is not a str - UserList, GOLEM's Generation,
    deque, user-defined Sequence classes (VUserSeq kind) - exactly as to lists and tuples: the result
    is a list of converted graphs; empty ones and those not led by a graph are untouched *)
-Theorem C18_other_sequences : forall (G M : Type) (cvA : G -> G) (cvR : G -> option M -> G) k kd g g2 c m s,
+Theorem C18_other_sequences : forall (G M : Type) (cvA : G -> G) (cvR : G -> option M -> G) g_empty k kd g g2 c m s,
   k <> AIdentity ->
   restore_total cvR k (VUserSeq kd [VGraph KOpt g; VGraph KOpt g2]) =
     VSeq [VGraph (dom_tag k) (cvR g None); VGraph (dom_tag k) (cvR g2 None)] /\
@@ -194,9 +194,9 @@ Theorem C18_other_sequences : forall (G M : Type) (cvA : G -> G) (cvR : G -> opt
   adapt_total cvA k (VUserSeq kd [] : @val G M) = VUserSeq kd [] /\
   (is_dom_exact k (VGraph c g : @val G M) = true ->
      adapt_total cvA k (VUserSeq kd [VGraph c g] : @val G M) = VSeq [VGraph KOpt (cvA g)]) /\
-  (forall v : @val G M, restorable k v = true -> restore cvR k v = Ok (restore_total cvR k v)).
+  (forall v : @val G M, restorable g_empty k v = true -> restore cvR g_empty k v = Ok (restore_total cvR k v)).
 Proof.
-  intros G M cvA cvR k kd g g2 c m s Hk.
+  intros G M cvA cvR g_empty k kd g g2 c m s Hk.
   repeat split; try (intros v; apply restore_total_ok);
     destruct k; try contradiction; cbn; try reflexivity;
     intros H; destruct c; cbn in *; try discriminate; reflexivity.
@@ -205,24 +205,24 @@ Print Assumptions C18_other_sequences.
 
 (* adapt_func of a function that is not native: it is called with restore of every positional
    and keyword argument, its result goes through adapt (None -> None, tuple -> item-wise) *)
-Theorem C18_adapt_func_spec : forall (G M : Type) (cvA : G -> G) (cvR : G -> option M -> G)
+Theorem C18_adapt_func_spec : forall (G M : Type) (cvA : G -> G) (cvR : G -> option M -> G) (g_empty : G -> bool)
     k (fn : @pyfun G M) args kw r,
-  forallb (restorable k) args = true ->
-  forallb (fun kv => restorable k (snd kv)) kw = true ->
+  forallb (restorable g_empty k) args = true ->
+  forallb (fun kv => restorable g_empty k (snd kv)) kw = true ->
   fn (map (restore_total cvR k) args) (map (fun kv => (fst kv, restore_total cvR k (snd kv))) kw) = Ok r ->
   result_ok (adaptable k) r = true ->
-  adapt_wrap cvA cvR k fn args kw = Ok (result_total (adapt_total cvA k) r).
-Proof. intros G M cvA cvR. exact (adapt_wrap_spec cvA cvR). Qed.
+  adapt_wrap cvA cvR g_empty k fn args kw = Ok (result_total (adapt_total cvA k) r).
+Proof. intros G M cvA cvR g_empty. exact (adapt_wrap_spec cvA cvR g_empty). Qed.
 Print Assumptions C18_adapt_func_spec.
 
-Theorem C18_restore_func_spec : forall (G M : Type) (cvA : G -> G) (cvR : G -> option M -> G)
+Theorem C18_restore_func_spec : forall (G M : Type) (cvA : G -> G) (cvR : G -> option M -> G) (g_empty : G -> bool)
     k (fn : @pyfun G M) args kw r,
   forallb (adaptable k) args = true ->
   forallb (fun kv => adaptable k (snd kv)) kw = true ->
   fn (map (adapt_total cvA k) args) (map (fun kv => (fst kv, adapt_total cvA k (snd kv))) kw) = Ok r ->
-  result_ok (restorable k) r = true ->
-  restore_func cvA cvR k fn args kw = Ok (result_total (restore_total cvR k) r).
-Proof. intros G M cvA cvR. exact (restore_func_spec cvA cvR). Qed.
+  result_ok (restorable g_empty k) r = true ->
+  restore_func cvA cvR g_empty k fn args kw = Ok (result_total (restore_total cvR k) r).
+Proof. intros G M cvA cvR g_empty. exact (restore_func_spec cvA cvR g_empty). Qed.
 Print Assumptions C18_restore_func_spec.
 
 (* ---------------------------------------------------------------------------------------
@@ -274,9 +274,9 @@ Proof. exact instance_registration_local. Qed.
 Print Assumptions C18_instance_registration_local.
 
 (* calling the outcome of adapt_func: the native function itself / the converting wrapper *)
-Theorem C18_native_called_directly : forall (G M : Type) (cvA : G -> G) (cvR : G -> option M -> G) k den fl c,
-  (is_native fl c = true -> call_adapted cvA cvR k den (adapt_func fl c) = den c) /\
-  (is_native fl c = false -> call_adapted cvA cvR k den (adapt_func fl c) = adapt_wrap cvA cvR k (den c)).
+Theorem C18_native_called_directly : forall (G M : Type) (cvA : G -> G) (cvR : G -> option M -> G) g_empty k den fl c,
+  (is_native fl c = true -> call_adapted cvA cvR g_empty k den (adapt_func fl c) = den c) /\
+  (is_native fl c = false -> call_adapted cvA cvR g_empty k den (adapt_func fl c) = adapt_wrap cvA cvR g_empty k (den c)).
 Proof.
   intros. split; [apply native_called_directly|apply domain_called_through_wrapper].
 Qed.
@@ -292,13 +292,13 @@ Print Assumptions C18_registry_history.
 (* sessions on one adapter instance: after ANY history the outcome of adapt_func depends on the
    history only (nothing is remembered between calls); a native function sees the internal graph
    itself, any other one the restored domain graph *)
-Theorem C18_session_call_model : forall (G M : Type) (cvA : G -> G) (cvR : G -> option M -> G) den fl q g,
+Theorem C18_session_call_model : forall (G M : Type) (cvA : G -> G) (cvR : G -> option M -> G) g_empty den fl q g,
   (is_native fl q = true ->
-     call_adapted cvA cvR ANx den (adapt_func fl q) [VGraph KOpt g] [] = den q [VGraph KOpt g] []) /\
+     call_adapted cvA cvR g_empty ANx den (adapt_func fl q) [VGraph KOpt g] [] = den q [VGraph KOpt g] []) /\
   (is_native fl q = false ->
-     call_adapted cvA cvR ANx den (adapt_func fl q) [VGraph KOpt g] [] =
+     call_adapted cvA cvR g_empty ANx den (adapt_func fl q) [VGraph KOpt g] [] =
      bind (den q [VGraph KDom (cvR g None)] []) (transform_result (adapt cvA ANx))).
-Proof. intros G M cvA cvR. exact (session_call_model cvA cvR). Qed.
+Proof. intros G M cvA cvR g_empty. exact (session_call_model cvA cvR g_empty). Qed.
 Print Assumptions C18_session_call_model.
 
 Theorem C18_model_holds_session : forall ops adapting q,
@@ -350,8 +350,8 @@ Print Assumptions C18_oracle_fresh_sound.
 (* whatever the wrapped function returns, the literal model of the wrapper passes the call
    oracle: the oracle asks nothing the modelled code does not do *)
 Theorem C18_model_holds_call : forall k (ad : bool) args kw raw,
-  let fa := if ad then @restore nat nat tidR k else @adapt nat nat tid k in
-  let fr := if ad then @adapt nat nat tid k else @restore nat nat tidR k in
+  let fa := if ad then @restore nat nat tidR tempty k else @adapt nat nat tid k in
+  let fr := if ad then @adapt nat nat tid k else @restore nat nat tidR tempty k in
   holds_call (mkCall k ad args kw
                 (bind (map_kw fa kw) (fun kw' => bind (map_res fa args) (fun a' => Ok (a', kw'))))
                 raw (transform fa fr (fun _ _ => Ok raw) args kw) true) = true.
@@ -388,7 +388,7 @@ Proof. vm_compute. repeat split. Qed.
 
 Example call_example :
   let fn : @pyfun nat nat := fun args kw => match args with [VGraph KDom g; VScalar s] => Ok (VTuple [VGraph KDom (g + 1); VNone]) | _ => Raise end in
-  adapt_wrap tid tidR ANx fn [VGraph KOpt 3; VScalar "x"] [] = Ok (VTuple [VGraph KOpt 4; VNone]).
+  adapt_wrap tid tidR tempty ANx fn [VGraph KOpt 3; VScalar "x"] [] = Ok (VTuple [VGraph KOpt 4; VNone]).
 Proof. vm_compute. reflexivity. Qed.
 
 Example registry_example :
@@ -419,4 +419,13 @@ Example registered_class_and_instances :
   is_native fl (CMethod (CFun 40)) = false /\
   let fl2 := register_native (fun _ => false) (CInst 30 [20]) in
   is_native fl2 (CInst 30 [20]) = true /\ is_native fl2 (CInst 32 [20]) = false /\ is_native fl2 (CInst 20 []) = false.
+Proof. vm_compute. repeat split. Qed.
+
+(* a list led by an internal graph: the NetworkX adapters' _restore is applied to EVERY item; on a
+   foreign digraph it raises as soon as that digraph has a node, and returns an empty digraph for an
+   empty one (token 99) *)
+Example restore_of_mixed_sequence :
+  @restore nat nat tidR tempty ANx (VSeq [VGraph KOpt 0; VGraph KDom 99]) = Ok (VSeq [VGraph KDom 0; VGraph KDom 99]) /\
+  @restore nat nat tidR tempty ANx (VSeq [VGraph KOpt 0; VGraph KDom 5]) = Raise /\
+  @restore nat nat tidR tempty ADirectDefault (VSeq [VGraph KOpt 0; VGraph KDom 99]) = Raise.
 Proof. vm_compute. repeat split. Qed.
